@@ -121,6 +121,12 @@ func genC05(r *Rng, tier string, idx int) *Plan {
 		k.Refresh = "static"
 	}
 	p.Ops = genHistory(r, p.Spec, r.Range(8, 40), true)
+	// the scheme Envoy reports for a client's requests (TLS may be terminated in front of it)
+	for b := 0; b < 3; b++ {
+		if r.Chance(0.3) {
+			p.Ops = append([]Op{{ID: 2000 + b, Kind: "client", B: b, Args: map[string]string{"scheme": r.Pick([]string{"http", "HTTP", "https", "Http"})}}}, p.Ops...)
+		}
+	}
 	// make sure each class of presented id occurs: pending, authenticated, stale, attacker-chosen
 	id := 1000
 	t := genTarget(r)
@@ -191,11 +197,22 @@ func genC11(r *Rng, tier string, idx int) *Plan {
 				p.Ops = append(p.Ops, Op{ID: nid(), Kind: "idp", Args: map[string]string{"byz": r.Pick([]string{"", "foreign-key", "alg-none", "tampered-payload", "aud-foreign"}), "byz_on": "refresh"}})
 			}
 		}
+		if r.Chance(0.3) {
+			// another user's exchange right before ours (whatever one exchange leaves behind must not leak into the next)
+			p.Ops = append(p.Ops, Op{ID: nid(), Kind: "nav", B: 1, Path: t})
+		}
 		// requests inside the lifetime must not hit the token endpoint; past it they must refresh
 		if r.Chance(0.3) {
 			p.Ops = append(p.Ops, Op{ID: nid(), Kind: "adv", D: r.Range(1, 40)}, Op{ID: nid(), Kind: "send", Path: t, S: "own"})
 		}
-		p.Ops = append(p.Ops, Op{ID: nid(), Kind: "adv", D: life + r.Range(1, 120)}, Op{ID: nid(), Kind: "send", Path: t, S: "own"})
+		p.Ops = append(p.Ops, Op{ID: nid(), Kind: "adv", D: life + r.Range(1, 120)})
+		if r.Chance(0.3) {
+			p.Ops = append(p.Ops, Op{ID: nid(), Kind: "send", B: 1, Path: t, S: "own"}) // the other user's refresh comes first
+		}
+		if r.Chance(0.15) {
+			p.Ops = append(p.Ops, Op{ID: nid(), Kind: "idp-raw", S: r.Pick([]string{`{"error":"invalid_grant"}`, `{}`}), D: 1})
+		}
+		p.Ops = append(p.Ops, Op{ID: nid(), Kind: "send", Path: t, S: "own"})
 		if r.Chance(0.25) {
 			p.Ops = append(p.Ops, Op{ID: nid(), Kind: "nav", Path: t}) // the browser follows the redirect if the session ended
 		}
@@ -231,13 +248,15 @@ func genC13(r *Rng, tier string, idx int) *Plan {
 	f := &p.Spec.Filters[0]
 	is := &p.Spec.IdPs[0]
 	f.ClientID = r.Pick([]string{"client", "cl ient", "a+b&c=d", "id/with?reserved#chars", "ünï-cödé", "100%25", "x;y,z", "sp  ace"})
-	switch r.Intn(5) {
+	switch r.Intn(6) {
 	case 0:
 		f.Scopes = []string{"openid", "api://app/.default", "a+b", "x&y=z"}
 	case 1:
 		f.Scopes = []string{"profile", "e mail"}
 	case 2:
 		f.Scopes = []string{"ünï"}
+	case 3:
+		f.Scopes = []string{r.Pick([]string{"openid_groups", "https://api.example.com/openid.read", "xopenid", "OpenID", "openid2"}), "email"}
 	}
 	if r.Chance(0.4) {
 		f.CallbackQuery = r.Pick([]string{"?tenant=1", "?a=b&c=d%20e", "?x"})
